@@ -27,10 +27,10 @@ def discover(pdict):
     return shipped.execute(pdict, prompt=True)
 
 
-def make_case(seed, prop, flip_p=None):
+def make_case(seed, prop, flip_p=None, archetype=None):
     rng = core.Rng(core.h64('shipcase', prop, seed))
     year = rng.pick(shipped.YEARS)
-    pdict = shipped.make_persona(year, seed)
+    pdict = shipped.make_persona(year, seed, archetype)
     disc = discover(pdict)
     D = list(disc.monitor.prompted)
     persona = shipped.Persona(pdict)
@@ -84,6 +84,12 @@ def make_case(seed, prop, flip_p=None):
             if bad:
                 over[q] = rng.pick(bad)
                 faults.append(f'corrupt:{q}')
+    if prop == 'C04' and rng.chance(0.15):
+        # only a part of the return is asked for (one of its statements), while the file also holds everything else
+        insts = sorted({f'{f_}:{i_}' for f_, i_, _ in map(shipped.split_name, D) if i_ is not None})
+        if insts:
+            pdict['forms'] = [rng.pick(insts)] + ([rng.pick(insts)] if rng.chance(0.2) else [])
+            faults.append('partial-request')
     case['faults'] = faults
     return case
 
@@ -189,6 +195,14 @@ def stats(case, run, r1, acc, prop):
 def evaluate(prop, case, acc=None):
     if prop == 'C05':
         return evaluate_group(case, acc)
+    if case.get('prelude'):
+        # an earlier, slightly different return solved in the same process (nothing of it is judged)
+        try:
+            shipped.execute(case['prelude'], prompt=True)
+        except (core.RunTimeout, core.BudgetExceeded):
+            pass
+        if acc is not None:
+            acc.count('fault:earlier-return-in-same-process')
     try:
         run = execute_cli(case) if case.get('level') == 'cli' else execute(case)
     except (core.RunTimeout, core.BudgetExceeded) as e:
@@ -295,13 +309,36 @@ def evaluate_group(case, acc=None):
     return fs
 
 
+def add_prelude(case, seed):
+    """the same taxpayer with one amount nudged, solved first in the same process"""
+    rng = core.Rng(core.h64('shipprelude', seed))
+    pre = copy.deepcopy(case['persona'])
+    cands = []
+    for q, t in sorted(pre['over'].items()):
+        if q.endswith(('.box_1', '.box_1a', '.box_2a')):
+            try:
+                cands.append((q, float(t)))
+            except ValueError:
+                pass
+    if cands:
+        q, v = rng.pick(cands)
+        pre['over'][q] = str(round(max(0.0, v + rng.pick([5, 10, 25, -25, 45.5, -10, 50, 0.01, 1000])), 2))
+    case['prelude'] = pre
+    return case
+
+
 def run_one(prop, seed, acc, tier, level=None):
-    case = make_case(seed, prop)
+    if level == 'after':
+        case = make_case(seed, prop, archetype='low_income_investor' if core.Rng(core.h64('after', seed)).chance(0.35) else None)
+        add_prelude(case, seed)
+        level = None
+    else:
+        case = make_case(seed, prop)
     if level:
         case['level'] = level
     if prop == 'C05':
         case['variants'] = group_variants(case, seed, core.Rng(seed).pick([4, 6, 8]))
-    engine = 'shipped_group' if prop == 'C05' else ('shipped_cli' if level == 'cli' else 'shipped')
+    engine = 'shipped_group' if prop == 'C05' else ('shipped_cli' if level == 'cli' else ('shipped_after' if case.get('prelude') else 'shipped'))
     for f in evaluate(prop, case, acc):
         acc.violation(base.violation(prop, f, case, seed, engine))
 
